@@ -8,7 +8,7 @@ from fractions import Fraction
 
 from . import model as M
 
-PROFILES = ("full", "minimal", "nofloat", "bounded", "inplace")
+PROFILES = ("full", "minimal", "nofloat", "bounded", "inplace", "floatable")
 
 
 class Seam:
@@ -96,6 +96,13 @@ class SimPoint:
 
     def __repr__(self):
         return "SimPoint(%s)" % ", ".join(M.enc(x) for x in self.c)
+
+    def __float__(self):
+        # only the 'floatable' profile can be converted (like a dual number or a quantity reporting its principal value):
+        # a library that silently does so loses the other coordinates
+        if self.profile != "floatable":
+            raise TypeError("float() argument must be a string or a real number, not 'SimPoint'")
+        return float(self.c[0])
 
     def __copy__(self):
         return SimPoint(self.c, self.profile, self.seam, self.bound)
